@@ -493,7 +493,7 @@ class Exec:
             a = [self.eval(x, st) for x in it.args]
             if len(a) == 1:
                 return 0, a[0], None
-            if len(a) == 2:
+            if len(a) == 2 or (len(a) == 3 and conc_int(a[2]) == 1):
                 return a[0], a[1], None
             raise Unsupported('range with step')
         if isinstance(it, ast.Call) and isinstance(it.func, ast.Name) and it.func.id == 'enumerate':
@@ -951,7 +951,22 @@ class Exec:
         return node.value
 
     def ev_JoinedStr(self, node, st):
-        return '<fstring>'
+        parts = []
+        for v in node.values:
+            if isinstance(v, ast.Constant):
+                parts.append(str(v.value))
+            elif isinstance(v, ast.FormattedValue) and v.format_spec is None and v.conversion == -1:
+                try:
+                    x = self.eval_quiet(v.value, st)
+                except (Unsupported, EngineError, KeyError, _Raise):
+                    return '<fstring>'
+                if isinstance(x, (str, int)) and not isinstance(x, bool):
+                    parts.append(str(x))
+                else:
+                    return '<fstring>'
+            else:
+                return '<fstring>'
+        return ''.join(parts)
 
     def ev_Name(self, node, st):
         n = node.id
@@ -1130,6 +1145,29 @@ class Exec:
         return st.alloc(self.c, PyList(out))
 
     ev_GeneratorExp = ev_ListComp
+
+    def ev_DictComp(self, node, st):
+        if len(node.generators) != 1 or node.generators[0].ifs:
+            raise Unsupported('dict comprehension form')
+        g = node.generators[0]
+        lo, hi, elem = self.iter_info(g.iter, st, node)
+        clo, chi = conc_int(lo), conc_int(hi)
+        if clo is None or chi is None:
+            raise Unsupported('dict comprehension over symbolic extent')
+        out = {}
+        saved = dict(st.env)
+        for k in range(clo, chi):
+            self.assign(g.target, elem(k, st) if elem else k, st, node)
+            kk = self.eval(node.key, st)
+            if is_sym(kk) or isinstance(kk, Ref):
+                raise Unsupported('dict comprehension with symbolic key')
+            out[kk] = self.eval(node.value, st)
+        for n in _target_names(g.target):
+            if n in saved:
+                st.env[n] = saved[n]
+            else:
+                st.env.pop(n, None)
+        return st.alloc(self.c, PyDict(out))
 
     def symbolic_comprehension(self, node, g, lo, hi, elem, st):
         """[expr(i) for i in <symbolic extent>] with scalar expr and no filter: the sequence k -> expr(k), obtained by
@@ -1842,6 +1880,17 @@ class Exec:
                 vv = to_real(v) if a.kind == 'real' else v
                 st.put(ref, Arr(a.shape, lambda ix, a=a, mask=mask: z3.If(mask.elem((ix[0],)), vv, a.elem(ix))
                                 if is_sym(mask.elem((ix[0],))) else (vv if mask.elem((ix[0],)) else a.elem(ix)), a.kind))
+                return
+        if len(plan) == 1 and plan[0][0] == 'f' and a.ndim == 1 and self.is_arr(v, st):
+            idx = st.get(plan[0][1])
+            V = st.get(v)
+            if isinstance(idx, Arr) and idx.kind == 'int' and idx.inv is not None and V.ndim == 1:
+                # a[p] = v with p a permutation of 0..n-1: new[j] = v[p^-1(j)]
+                if not _same(idx.shape[0], a.shape[0]):
+                    self.oblige('safe.shape', st, as_term(idx.shape[0]) == as_term(a.shape[0]), node)
+                if not _same(V.shape[0], a.shape[0]):
+                    self.oblige('safe.shape', st, as_term(V.shape[0]) == as_term(a.shape[0]), node)
+                st.put(ref, Arr(a.shape, lambda ix, V=V, idx=idx: V.elem((idx.inv(ix[0]),)), 'real' if 'real' in (a.kind, V.kind) else a.kind))
                 return
         if any(p[0] in ('f', 'n') for p in plan):
             raise Unsupported('fancy store')
